@@ -60,9 +60,12 @@ def main(tier, replay=None):
         with common.Scratch("c04") as scratch:
             # ---- symbolic: all inputs at once ----
             traces, metas = [], []
-            for k in range(n_sym):
+            for k in range(n_sym + 1):
                 rng = random.Random("c04/%d/%d" % (seed, k))
-                pr, _ = gen.rand_case(seed, 220000 + k, p_ext=0.0, max_bits=rng.choice([60, 300, 900]))
+                if k == n_sym:
+                    pr = gen.same_names_program()   # the same bare name for different definitions in different scopes
+                else:
+                    pr, _ = gen.rand_case(seed, 220000 + k, p_ext=0.0, max_bits=rng.choice([60, 300, 900]))
                 d = scratch.sub()
                 main_path, paths = render.write_program(pr, d)
                 events = []
@@ -132,8 +135,11 @@ def main(tier, replay=None):
             for endian, define_be in variants:
                 builder = cdrive.CBuilder(scratch, cflags=("-O2",), defines=(("BP_BIG_ENDIAN",) if define_be else ()))
                 cases = []
-                for k in range(n_run):
-                    pr, rng = gen.rand_case(seed, 230000 + k, p_ext=0.0)
+                for k in range(n_run + 1):
+                    if k == n_run:
+                        pr, rng = gen.same_names_program(), random.Random("c04sn/%d" % seed)
+                    else:
+                        pr, rng = gen.rand_case(seed, 230000 + k, p_ext=0.0)
                     t = pr["rtype"]
                     vals = [gen.gen_value(rng, t, "ones")] + [gen.gen_value(rng, t, "rand") for _ in range(3)]
                     cases.append(cwire.CCase("c04-run-%s-%s-%d" % (endian, "be" if define_be else "le", k), pr, vals))
